@@ -2,7 +2,7 @@
    expansion on every check run: lib/expand_derive.py + lib/xlate_limb.py -> GenLimb/GenDerive.v).
    `GenDerive_<field>_<f>_eq`: generated definition = C01 derive-flavour model at the literal modulus, all limb values.
    `GenDerive_<field>_<f>_spec`: composed with the all-N theorems of C01, modulus as a decimal literal. *)
-From V Require Import Base.Word C15.GenArith C15.BigIntModel C01.InvModel C01.MontModel
+From V Require Import Base.Word C15.GenArith C15.BigIntModel C01.InvModel C01.MontModel C01.MontProofs C01.SopProofs
   GenLimb.GenLimb GenLimb.GenLimbSpecs GenLimb.GenDerive GenLimb.GenDeriveSpecs.
 
 Theorem GenDerive_mul_assign_w_derived_eq : forall m a b, wf m -> wf a -> wf b ->
@@ -703,3 +703,649 @@ Theorem GenDerive_bls381fq_square_in_place_model : forall a0 a1 a2 a3 a4 a5,
   wf [a0; a1; a2; a3; a4; a5] -> val [a0; a1; a2; a3; a4; a5] < gen_bls381fq_modulus_attr ->
   gen_bls381fq_square_in_place (inv_of gen_bls381fq_modulus) a0 a1 a2 a3 a4 a5 = square_in_place true gen_bls381fq_modulus [a0; a1; a2; a3; a4; a5].
 Proof. exact gen_bls381fq_square_in_place_model. Qed.
+
+(* ================= sum_of_products::<M>, the generated interleaved branch ================= *)
+Theorem GenDerive_r62_sop_branch : forall ab,
+  (length ab <= 3)%nat -> sum_of_products true gen_r62_modulus ab = sop_interleaved_ab gen_r62_modulus ab.
+Proof. exact gen_r62_sop_branch. Qed.
+Theorem GenDerive_r62_sum_of_products_1_eq : forall a0l0 b0l0,
+  gen_r62_sum_of_products_1 (inv_of gen_r62_modulus) a0l0 b0l0 = sop_interleaved_ab gen_r62_modulus
+    [([a0l0], [b0l0])].
+Proof. exact gen_r62_sum_of_products_1_eq. Qed.
+Theorem GenDerive_r62_sum_of_products_1_spec : forall a0l0 b0l0,
+  let ab := [([a0l0], [b0l0])] in
+  Forall (okpair gen_r62_modulus) ab ->
+  let r := gen_r62_sum_of_products_1 (inv_of gen_r62_modulus) a0l0 b0l0 in
+  r = sum_of_products true gen_r62_modulus ab /\ elem_ok gen_r62_modulus r /\ std gen_r62_modulus r = dot gen_r62_modulus ab 0 mod gen_r62_modulus_attr.
+Proof. exact gen_r62_sum_of_products_1_spec. Qed.
+Theorem GenDerive_r62_sum_of_products_2_eq : forall a0l0 a1l0 b0l0 b1l0,
+  gen_r62_sum_of_products_2 (inv_of gen_r62_modulus) a0l0 a1l0 b0l0 b1l0 = sop_interleaved_ab gen_r62_modulus
+    [([a0l0], [b0l0]); ([a1l0], [b1l0])].
+Proof. exact gen_r62_sum_of_products_2_eq. Qed.
+Theorem GenDerive_r62_sum_of_products_2_spec : forall a0l0 a1l0 b0l0 b1l0,
+  let ab := [([a0l0], [b0l0]); ([a1l0], [b1l0])] in
+  Forall (okpair gen_r62_modulus) ab ->
+  let r := gen_r62_sum_of_products_2 (inv_of gen_r62_modulus) a0l0 a1l0 b0l0 b1l0 in
+  r = sum_of_products true gen_r62_modulus ab /\ elem_ok gen_r62_modulus r /\ std gen_r62_modulus r = dot gen_r62_modulus ab 0 mod gen_r62_modulus_attr.
+Proof. exact gen_r62_sum_of_products_2_spec. Qed.
+Theorem GenDerive_r62_sum_of_products_3_eq : forall a0l0 a1l0 a2l0 b0l0 b1l0 b2l0,
+  gen_r62_sum_of_products_3 (inv_of gen_r62_modulus) a0l0 a1l0 a2l0 b0l0 b1l0 b2l0 = sop_interleaved_ab gen_r62_modulus
+    [([a0l0], [b0l0]); ([a1l0], [b1l0]); ([a2l0], [b2l0])].
+Proof. exact gen_r62_sum_of_products_3_eq. Qed.
+Theorem GenDerive_r62_sum_of_products_3_spec : forall a0l0 a1l0 a2l0 b0l0 b1l0 b2l0,
+  let ab := [([a0l0], [b0l0]); ([a1l0], [b1l0]); ([a2l0], [b2l0])] in
+  Forall (okpair gen_r62_modulus) ab ->
+  let r := gen_r62_sum_of_products_3 (inv_of gen_r62_modulus) a0l0 a1l0 a2l0 b0l0 b1l0 b2l0 in
+  r = sum_of_products true gen_r62_modulus ab /\ elem_ok gen_r62_modulus r /\ std gen_r62_modulus r = dot gen_r62_modulus ab 0 mod gen_r62_modulus_attr.
+Proof. exact gen_r62_sum_of_products_3_spec. Qed.
+Theorem GenDerive_r125_sop_branch : forall ab,
+  (length ab <= 5)%nat -> sum_of_products true gen_r125_modulus ab = sop_interleaved_ab gen_r125_modulus ab.
+Proof. exact gen_r125_sop_branch. Qed.
+Theorem GenDerive_r125_sum_of_products_1_eq : forall a0l0 a0l1 b0l0 b0l1,
+  gen_r125_sum_of_products_1 (inv_of gen_r125_modulus) a0l0 a0l1 b0l0 b0l1 = sop_interleaved_ab gen_r125_modulus
+    [([a0l0; a0l1], [b0l0; b0l1])].
+Proof. exact gen_r125_sum_of_products_1_eq. Qed.
+Theorem GenDerive_r125_sum_of_products_1_spec : forall a0l0 a0l1 b0l0 b0l1,
+  let ab := [([a0l0; a0l1], [b0l0; b0l1])] in
+  Forall (okpair gen_r125_modulus) ab ->
+  let r := gen_r125_sum_of_products_1 (inv_of gen_r125_modulus) a0l0 a0l1 b0l0 b0l1 in
+  r = sum_of_products true gen_r125_modulus ab /\ elem_ok gen_r125_modulus r /\ std gen_r125_modulus r = dot gen_r125_modulus ab 0 mod gen_r125_modulus_attr.
+Proof. exact gen_r125_sum_of_products_1_spec. Qed.
+Theorem GenDerive_r125_sum_of_products_2_eq : forall a0l0 a0l1 a1l0 a1l1 b0l0 b0l1 b1l0 b1l1,
+  gen_r125_sum_of_products_2 (inv_of gen_r125_modulus) a0l0 a0l1 a1l0 a1l1 b0l0 b0l1 b1l0 b1l1 = sop_interleaved_ab gen_r125_modulus
+    [([a0l0; a0l1], [b0l0; b0l1]); ([a1l0; a1l1], [b1l0; b1l1])].
+Proof. exact gen_r125_sum_of_products_2_eq. Qed.
+Theorem GenDerive_r125_sum_of_products_2_spec : forall a0l0 a0l1 a1l0 a1l1 b0l0 b0l1 b1l0 b1l1,
+  let ab := [([a0l0; a0l1], [b0l0; b0l1]); ([a1l0; a1l1], [b1l0; b1l1])] in
+  Forall (okpair gen_r125_modulus) ab ->
+  let r := gen_r125_sum_of_products_2 (inv_of gen_r125_modulus) a0l0 a0l1 a1l0 a1l1 b0l0 b0l1 b1l0 b1l1 in
+  r = sum_of_products true gen_r125_modulus ab /\ elem_ok gen_r125_modulus r /\ std gen_r125_modulus r = dot gen_r125_modulus ab 0 mod gen_r125_modulus_attr.
+Proof. exact gen_r125_sum_of_products_2_spec. Qed.
+Theorem GenDerive_bn254fr_sop_branch : forall ab,
+  (length ab <= 3)%nat -> sum_of_products true gen_bn254fr_modulus ab = sop_interleaved_ab gen_bn254fr_modulus ab.
+Proof. exact gen_bn254fr_sop_branch. Qed.
+Theorem GenDerive_bn254fr_sum_of_products_1_eq : forall a0l0 a0l1 a0l2 a0l3 b0l0 b0l1 b0l2 b0l3,
+  gen_bn254fr_sum_of_products_1 (inv_of gen_bn254fr_modulus) a0l0 a0l1 a0l2 a0l3 b0l0 b0l1 b0l2 b0l3 = sop_interleaved_ab gen_bn254fr_modulus
+    [([a0l0; a0l1; a0l2; a0l3], [b0l0; b0l1; b0l2; b0l3])].
+Proof. exact gen_bn254fr_sum_of_products_1_eq. Qed.
+Theorem GenDerive_bn254fr_sum_of_products_1_spec : forall a0l0 a0l1 a0l2 a0l3 b0l0 b0l1 b0l2 b0l3,
+  let ab := [([a0l0; a0l1; a0l2; a0l3], [b0l0; b0l1; b0l2; b0l3])] in
+  Forall (okpair gen_bn254fr_modulus) ab ->
+  let r := gen_bn254fr_sum_of_products_1 (inv_of gen_bn254fr_modulus) a0l0 a0l1 a0l2 a0l3 b0l0 b0l1 b0l2 b0l3 in
+  r = sum_of_products true gen_bn254fr_modulus ab /\ elem_ok gen_bn254fr_modulus r /\ std gen_bn254fr_modulus r = dot gen_bn254fr_modulus ab 0 mod gen_bn254fr_modulus_attr.
+Proof. exact gen_bn254fr_sum_of_products_1_spec. Qed.
+Theorem GenDerive_bn254fr_sum_of_products_2_eq : forall a0l0 a0l1 a0l2 a0l3 a1l0 a1l1 a1l2 a1l3 b0l0 b0l1 b0l2 b0l3 b1l0 b1l1 b1l2 b1l3,
+  gen_bn254fr_sum_of_products_2 (inv_of gen_bn254fr_modulus) a0l0 a0l1 a0l2 a0l3 a1l0 a1l1 a1l2 a1l3 b0l0 b0l1 b0l2 b0l3 b1l0 b1l1 b1l2 b1l3 = sop_interleaved_ab gen_bn254fr_modulus
+    [([a0l0; a0l1; a0l2; a0l3], [b0l0; b0l1; b0l2; b0l3]); ([a1l0; a1l1; a1l2; a1l3], [b1l0; b1l1; b1l2; b1l3])].
+Proof. exact gen_bn254fr_sum_of_products_2_eq. Qed.
+Theorem GenDerive_bn254fr_sum_of_products_2_spec : forall a0l0 a0l1 a0l2 a0l3 a1l0 a1l1 a1l2 a1l3 b0l0 b0l1 b0l2 b0l3 b1l0 b1l1 b1l2 b1l3,
+  let ab := [([a0l0; a0l1; a0l2; a0l3], [b0l0; b0l1; b0l2; b0l3]); ([a1l0; a1l1; a1l2; a1l3], [b1l0; b1l1; b1l2; b1l3])] in
+  Forall (okpair gen_bn254fr_modulus) ab ->
+  let r := gen_bn254fr_sum_of_products_2 (inv_of gen_bn254fr_modulus) a0l0 a0l1 a0l2 a0l3 a1l0 a1l1 a1l2 a1l3 b0l0 b0l1 b0l2 b0l3 b1l0 b1l1 b1l2 b1l3 in
+  r = sum_of_products true gen_bn254fr_modulus ab /\ elem_ok gen_bn254fr_modulus r /\ std gen_bn254fr_modulus r = dot gen_bn254fr_modulus ab 0 mod gen_bn254fr_modulus_attr.
+Proof. exact gen_bn254fr_sum_of_products_2_spec. Qed.
+Theorem GenDerive_bn254fr_sum_of_products_3_eq : forall a0l0 a0l1 a0l2 a0l3 a1l0 a1l1 a1l2 a1l3 a2l0 a2l1 a2l2 a2l3 b0l0 b0l1 b0l2 b0l3 b1l0 b1l1 b1l2 b1l3 b2l0 b2l1 b2l2 b2l3,
+  gen_bn254fr_sum_of_products_3 (inv_of gen_bn254fr_modulus) a0l0 a0l1 a0l2 a0l3 a1l0 a1l1 a1l2 a1l3 a2l0 a2l1 a2l2 a2l3 b0l0 b0l1 b0l2 b0l3 b1l0 b1l1 b1l2 b1l3 b2l0 b2l1 b2l2 b2l3 = sop_interleaved_ab gen_bn254fr_modulus
+    [([a0l0; a0l1; a0l2; a0l3], [b0l0; b0l1; b0l2; b0l3]); ([a1l0; a1l1; a1l2; a1l3], [b1l0; b1l1; b1l2; b1l3]); ([a2l0; a2l1; a2l2; a2l3], [b2l0; b2l1; b2l2; b2l3])].
+Proof. exact gen_bn254fr_sum_of_products_3_eq. Qed.
+Theorem GenDerive_bn254fr_sum_of_products_3_spec : forall a0l0 a0l1 a0l2 a0l3 a1l0 a1l1 a1l2 a1l3 a2l0 a2l1 a2l2 a2l3 b0l0 b0l1 b0l2 b0l3 b1l0 b1l1 b1l2 b1l3 b2l0 b2l1 b2l2 b2l3,
+  let ab := [([a0l0; a0l1; a0l2; a0l3], [b0l0; b0l1; b0l2; b0l3]); ([a1l0; a1l1; a1l2; a1l3], [b1l0; b1l1; b1l2; b1l3]); ([a2l0; a2l1; a2l2; a2l3], [b2l0; b2l1; b2l2; b2l3])] in
+  Forall (okpair gen_bn254fr_modulus) ab ->
+  let r := gen_bn254fr_sum_of_products_3 (inv_of gen_bn254fr_modulus) a0l0 a0l1 a0l2 a0l3 a1l0 a1l1 a1l2 a1l3 a2l0 a2l1 a2l2 a2l3 b0l0 b0l1 b0l2 b0l3 b1l0 b1l1 b1l2 b1l3 b2l0 b2l1 b2l2 b2l3 in
+  r = sum_of_products true gen_bn254fr_modulus ab /\ elem_ok gen_bn254fr_modulus r /\ std gen_bn254fr_modulus r = dot gen_bn254fr_modulus ab 0 mod gen_bn254fr_modulus_attr.
+Proof. exact gen_bn254fr_sum_of_products_3_spec. Qed.
+Theorem GenDerive_bls381fq_sop_branch : forall ab,
+  (length ab <= 5)%nat -> sum_of_products true gen_bls381fq_modulus ab = sop_interleaved_ab gen_bls381fq_modulus ab.
+Proof. exact gen_bls381fq_sop_branch. Qed.
+Theorem GenDerive_bls381fq_sum_of_products_1_eq : forall a0l0 a0l1 a0l2 a0l3 a0l4 a0l5 b0l0 b0l1 b0l2 b0l3 b0l4 b0l5,
+  gen_bls381fq_sum_of_products_1 (inv_of gen_bls381fq_modulus) a0l0 a0l1 a0l2 a0l3 a0l4 a0l5 b0l0 b0l1 b0l2 b0l3 b0l4 b0l5 = sop_interleaved_ab gen_bls381fq_modulus
+    [([a0l0; a0l1; a0l2; a0l3; a0l4; a0l5], [b0l0; b0l1; b0l2; b0l3; b0l4; b0l5])].
+Proof. exact gen_bls381fq_sum_of_products_1_eq. Qed.
+Theorem GenDerive_bls381fq_sum_of_products_1_spec : forall a0l0 a0l1 a0l2 a0l3 a0l4 a0l5 b0l0 b0l1 b0l2 b0l3 b0l4 b0l5,
+  let ab := [([a0l0; a0l1; a0l2; a0l3; a0l4; a0l5], [b0l0; b0l1; b0l2; b0l3; b0l4; b0l5])] in
+  Forall (okpair gen_bls381fq_modulus) ab ->
+  let r := gen_bls381fq_sum_of_products_1 (inv_of gen_bls381fq_modulus) a0l0 a0l1 a0l2 a0l3 a0l4 a0l5 b0l0 b0l1 b0l2 b0l3 b0l4 b0l5 in
+  r = sum_of_products true gen_bls381fq_modulus ab /\ elem_ok gen_bls381fq_modulus r /\ std gen_bls381fq_modulus r = dot gen_bls381fq_modulus ab 0 mod gen_bls381fq_modulus_attr.
+Proof. exact gen_bls381fq_sum_of_products_1_spec. Qed.
+
+(* ================= GenShift: BigInt shifts by concrete amounts (N = 1..4) ================= *)
+Theorem GenDerive_muln_1_eq : forall a0,
+  gen_muln_1_0 a0 = shl [a0] 0 /\
+  gen_muln_1_1 a0 = shl [a0] 1 /\
+  gen_muln_1_63 a0 = shl [a0] 63 /\
+  gen_muln_1_64 a0 = shl [a0] 64 /\
+  gen_muln_1_65 a0 = shl [a0] 65 /\
+  gen_muln_1_127 a0 = shl [a0] 127 /\
+  gen_muln_1_128 a0 = shl [a0] 128.
+Proof. exact gen_muln_1_eq. Qed.
+Theorem GenDerive_muln_1_spec : forall a0,
+  wf [a0] ->
+  (wf (gen_muln_1_0 a0) /\ val (gen_muln_1_0 a0) = (val [a0] * 2 ^ 0) mod Wn 1) /\
+  (wf (gen_muln_1_1 a0) /\ val (gen_muln_1_1 a0) = (val [a0] * 2 ^ 1) mod Wn 1) /\
+  (wf (gen_muln_1_63 a0) /\ val (gen_muln_1_63 a0) = (val [a0] * 2 ^ 63) mod Wn 1) /\
+  (wf (gen_muln_1_64 a0) /\ val (gen_muln_1_64 a0) = (val [a0] * 2 ^ 64) mod Wn 1) /\
+  (wf (gen_muln_1_65 a0) /\ val (gen_muln_1_65 a0) = (val [a0] * 2 ^ 65) mod Wn 1) /\
+  (wf (gen_muln_1_127 a0) /\ val (gen_muln_1_127 a0) = (val [a0] * 2 ^ 127) mod Wn 1) /\
+  (wf (gen_muln_1_128 a0) /\ val (gen_muln_1_128 a0) = (val [a0] * 2 ^ 128) mod Wn 1).
+Proof. exact gen_muln_1_spec. Qed.
+Theorem GenDerive_muln_2_eq : forall a0 a1,
+  gen_muln_2_0 a0 a1 = shl [a0; a1] 0 /\
+  gen_muln_2_1 a0 a1 = shl [a0; a1] 1 /\
+  gen_muln_2_63 a0 a1 = shl [a0; a1] 63 /\
+  gen_muln_2_64 a0 a1 = shl [a0; a1] 64 /\
+  gen_muln_2_65 a0 a1 = shl [a0; a1] 65 /\
+  gen_muln_2_127 a0 a1 = shl [a0; a1] 127 /\
+  gen_muln_2_128 a0 a1 = shl [a0; a1] 128 /\
+  gen_muln_2_129 a0 a1 = shl [a0; a1] 129.
+Proof. exact gen_muln_2_eq. Qed.
+Theorem GenDerive_muln_2_spec : forall a0 a1,
+  wf [a0; a1] ->
+  (wf (gen_muln_2_0 a0 a1) /\ val (gen_muln_2_0 a0 a1) = (val [a0; a1] * 2 ^ 0) mod Wn 2) /\
+  (wf (gen_muln_2_1 a0 a1) /\ val (gen_muln_2_1 a0 a1) = (val [a0; a1] * 2 ^ 1) mod Wn 2) /\
+  (wf (gen_muln_2_63 a0 a1) /\ val (gen_muln_2_63 a0 a1) = (val [a0; a1] * 2 ^ 63) mod Wn 2) /\
+  (wf (gen_muln_2_64 a0 a1) /\ val (gen_muln_2_64 a0 a1) = (val [a0; a1] * 2 ^ 64) mod Wn 2) /\
+  (wf (gen_muln_2_65 a0 a1) /\ val (gen_muln_2_65 a0 a1) = (val [a0; a1] * 2 ^ 65) mod Wn 2) /\
+  (wf (gen_muln_2_127 a0 a1) /\ val (gen_muln_2_127 a0 a1) = (val [a0; a1] * 2 ^ 127) mod Wn 2) /\
+  (wf (gen_muln_2_128 a0 a1) /\ val (gen_muln_2_128 a0 a1) = (val [a0; a1] * 2 ^ 128) mod Wn 2) /\
+  (wf (gen_muln_2_129 a0 a1) /\ val (gen_muln_2_129 a0 a1) = (val [a0; a1] * 2 ^ 129) mod Wn 2).
+Proof. exact gen_muln_2_spec. Qed.
+Theorem GenDerive_muln_3_eq : forall a0 a1 a2,
+  gen_muln_3_0 a0 a1 a2 = shl [a0; a1; a2] 0 /\
+  gen_muln_3_1 a0 a1 a2 = shl [a0; a1; a2] 1 /\
+  gen_muln_3_63 a0 a1 a2 = shl [a0; a1; a2] 63 /\
+  gen_muln_3_64 a0 a1 a2 = shl [a0; a1; a2] 64 /\
+  gen_muln_3_65 a0 a1 a2 = shl [a0; a1; a2] 65 /\
+  gen_muln_3_127 a0 a1 a2 = shl [a0; a1; a2] 127 /\
+  gen_muln_3_128 a0 a1 a2 = shl [a0; a1; a2] 128 /\
+  gen_muln_3_191 a0 a1 a2 = shl [a0; a1; a2] 191 /\
+  gen_muln_3_192 a0 a1 a2 = shl [a0; a1; a2] 192 /\
+  gen_muln_3_193 a0 a1 a2 = shl [a0; a1; a2] 193.
+Proof. exact gen_muln_3_eq. Qed.
+Theorem GenDerive_muln_3_spec : forall a0 a1 a2,
+  wf [a0; a1; a2] ->
+  (wf (gen_muln_3_0 a0 a1 a2) /\ val (gen_muln_3_0 a0 a1 a2) = (val [a0; a1; a2] * 2 ^ 0) mod Wn 3) /\
+  (wf (gen_muln_3_1 a0 a1 a2) /\ val (gen_muln_3_1 a0 a1 a2) = (val [a0; a1; a2] * 2 ^ 1) mod Wn 3) /\
+  (wf (gen_muln_3_63 a0 a1 a2) /\ val (gen_muln_3_63 a0 a1 a2) = (val [a0; a1; a2] * 2 ^ 63) mod Wn 3) /\
+  (wf (gen_muln_3_64 a0 a1 a2) /\ val (gen_muln_3_64 a0 a1 a2) = (val [a0; a1; a2] * 2 ^ 64) mod Wn 3) /\
+  (wf (gen_muln_3_65 a0 a1 a2) /\ val (gen_muln_3_65 a0 a1 a2) = (val [a0; a1; a2] * 2 ^ 65) mod Wn 3) /\
+  (wf (gen_muln_3_127 a0 a1 a2) /\ val (gen_muln_3_127 a0 a1 a2) = (val [a0; a1; a2] * 2 ^ 127) mod Wn 3) /\
+  (wf (gen_muln_3_128 a0 a1 a2) /\ val (gen_muln_3_128 a0 a1 a2) = (val [a0; a1; a2] * 2 ^ 128) mod Wn 3) /\
+  (wf (gen_muln_3_191 a0 a1 a2) /\ val (gen_muln_3_191 a0 a1 a2) = (val [a0; a1; a2] * 2 ^ 191) mod Wn 3) /\
+  (wf (gen_muln_3_192 a0 a1 a2) /\ val (gen_muln_3_192 a0 a1 a2) = (val [a0; a1; a2] * 2 ^ 192) mod Wn 3) /\
+  (wf (gen_muln_3_193 a0 a1 a2) /\ val (gen_muln_3_193 a0 a1 a2) = (val [a0; a1; a2] * 2 ^ 193) mod Wn 3).
+Proof. exact gen_muln_3_spec. Qed.
+Theorem GenDerive_muln_4_eq : forall a0 a1 a2 a3,
+  gen_muln_4_0 a0 a1 a2 a3 = shl [a0; a1; a2; a3] 0 /\
+  gen_muln_4_1 a0 a1 a2 a3 = shl [a0; a1; a2; a3] 1 /\
+  gen_muln_4_63 a0 a1 a2 a3 = shl [a0; a1; a2; a3] 63 /\
+  gen_muln_4_64 a0 a1 a2 a3 = shl [a0; a1; a2; a3] 64 /\
+  gen_muln_4_65 a0 a1 a2 a3 = shl [a0; a1; a2; a3] 65 /\
+  gen_muln_4_127 a0 a1 a2 a3 = shl [a0; a1; a2; a3] 127 /\
+  gen_muln_4_128 a0 a1 a2 a3 = shl [a0; a1; a2; a3] 128 /\
+  gen_muln_4_255 a0 a1 a2 a3 = shl [a0; a1; a2; a3] 255 /\
+  gen_muln_4_256 a0 a1 a2 a3 = shl [a0; a1; a2; a3] 256 /\
+  gen_muln_4_257 a0 a1 a2 a3 = shl [a0; a1; a2; a3] 257.
+Proof. exact gen_muln_4_eq. Qed.
+Theorem GenDerive_muln_4_spec : forall a0 a1 a2 a3,
+  wf [a0; a1; a2; a3] ->
+  (wf (gen_muln_4_0 a0 a1 a2 a3) /\ val (gen_muln_4_0 a0 a1 a2 a3) = (val [a0; a1; a2; a3] * 2 ^ 0) mod Wn 4) /\
+  (wf (gen_muln_4_1 a0 a1 a2 a3) /\ val (gen_muln_4_1 a0 a1 a2 a3) = (val [a0; a1; a2; a3] * 2 ^ 1) mod Wn 4) /\
+  (wf (gen_muln_4_63 a0 a1 a2 a3) /\ val (gen_muln_4_63 a0 a1 a2 a3) = (val [a0; a1; a2; a3] * 2 ^ 63) mod Wn 4) /\
+  (wf (gen_muln_4_64 a0 a1 a2 a3) /\ val (gen_muln_4_64 a0 a1 a2 a3) = (val [a0; a1; a2; a3] * 2 ^ 64) mod Wn 4) /\
+  (wf (gen_muln_4_65 a0 a1 a2 a3) /\ val (gen_muln_4_65 a0 a1 a2 a3) = (val [a0; a1; a2; a3] * 2 ^ 65) mod Wn 4) /\
+  (wf (gen_muln_4_127 a0 a1 a2 a3) /\ val (gen_muln_4_127 a0 a1 a2 a3) = (val [a0; a1; a2; a3] * 2 ^ 127) mod Wn 4) /\
+  (wf (gen_muln_4_128 a0 a1 a2 a3) /\ val (gen_muln_4_128 a0 a1 a2 a3) = (val [a0; a1; a2; a3] * 2 ^ 128) mod Wn 4) /\
+  (wf (gen_muln_4_255 a0 a1 a2 a3) /\ val (gen_muln_4_255 a0 a1 a2 a3) = (val [a0; a1; a2; a3] * 2 ^ 255) mod Wn 4) /\
+  (wf (gen_muln_4_256 a0 a1 a2 a3) /\ val (gen_muln_4_256 a0 a1 a2 a3) = (val [a0; a1; a2; a3] * 2 ^ 256) mod Wn 4) /\
+  (wf (gen_muln_4_257 a0 a1 a2 a3) /\ val (gen_muln_4_257 a0 a1 a2 a3) = (val [a0; a1; a2; a3] * 2 ^ 257) mod Wn 4).
+Proof. exact gen_muln_4_spec. Qed.
+Theorem GenDerive_divn_1_eq : forall a0,
+  gen_divn_1_0 a0 = shr [a0] 0 /\
+  gen_divn_1_1 a0 = shr [a0] 1 /\
+  gen_divn_1_63 a0 = shr [a0] 63 /\
+  gen_divn_1_64 a0 = shr [a0] 64 /\
+  gen_divn_1_65 a0 = shr [a0] 65 /\
+  gen_divn_1_127 a0 = shr [a0] 127 /\
+  gen_divn_1_128 a0 = shr [a0] 128.
+Proof. exact gen_divn_1_eq. Qed.
+Theorem GenDerive_divn_1_spec : forall a0,
+  wf [a0] ->
+  (wf (gen_divn_1_0 a0) /\ val (gen_divn_1_0 a0) = val [a0] / 2 ^ 0) /\
+  (wf (gen_divn_1_1 a0) /\ val (gen_divn_1_1 a0) = val [a0] / 2 ^ 1) /\
+  (wf (gen_divn_1_63 a0) /\ val (gen_divn_1_63 a0) = val [a0] / 2 ^ 63) /\
+  (wf (gen_divn_1_64 a0) /\ val (gen_divn_1_64 a0) = val [a0] / 2 ^ 64) /\
+  (wf (gen_divn_1_65 a0) /\ val (gen_divn_1_65 a0) = val [a0] / 2 ^ 65) /\
+  (wf (gen_divn_1_127 a0) /\ val (gen_divn_1_127 a0) = val [a0] / 2 ^ 127) /\
+  (wf (gen_divn_1_128 a0) /\ val (gen_divn_1_128 a0) = val [a0] / 2 ^ 128).
+Proof. exact gen_divn_1_spec. Qed.
+Theorem GenDerive_divn_2_eq : forall a0 a1,
+  gen_divn_2_0 a0 a1 = shr [a0; a1] 0 /\
+  gen_divn_2_1 a0 a1 = shr [a0; a1] 1 /\
+  gen_divn_2_63 a0 a1 = shr [a0; a1] 63 /\
+  gen_divn_2_64 a0 a1 = shr [a0; a1] 64 /\
+  gen_divn_2_65 a0 a1 = shr [a0; a1] 65 /\
+  gen_divn_2_127 a0 a1 = shr [a0; a1] 127 /\
+  gen_divn_2_128 a0 a1 = shr [a0; a1] 128 /\
+  gen_divn_2_129 a0 a1 = shr [a0; a1] 129.
+Proof. exact gen_divn_2_eq. Qed.
+Theorem GenDerive_divn_2_spec : forall a0 a1,
+  wf [a0; a1] ->
+  (wf (gen_divn_2_0 a0 a1) /\ val (gen_divn_2_0 a0 a1) = val [a0; a1] / 2 ^ 0) /\
+  (wf (gen_divn_2_1 a0 a1) /\ val (gen_divn_2_1 a0 a1) = val [a0; a1] / 2 ^ 1) /\
+  (wf (gen_divn_2_63 a0 a1) /\ val (gen_divn_2_63 a0 a1) = val [a0; a1] / 2 ^ 63) /\
+  (wf (gen_divn_2_64 a0 a1) /\ val (gen_divn_2_64 a0 a1) = val [a0; a1] / 2 ^ 64) /\
+  (wf (gen_divn_2_65 a0 a1) /\ val (gen_divn_2_65 a0 a1) = val [a0; a1] / 2 ^ 65) /\
+  (wf (gen_divn_2_127 a0 a1) /\ val (gen_divn_2_127 a0 a1) = val [a0; a1] / 2 ^ 127) /\
+  (wf (gen_divn_2_128 a0 a1) /\ val (gen_divn_2_128 a0 a1) = val [a0; a1] / 2 ^ 128) /\
+  (wf (gen_divn_2_129 a0 a1) /\ val (gen_divn_2_129 a0 a1) = val [a0; a1] / 2 ^ 129).
+Proof. exact gen_divn_2_spec. Qed.
+Theorem GenDerive_divn_3_eq : forall a0 a1 a2,
+  gen_divn_3_0 a0 a1 a2 = shr [a0; a1; a2] 0 /\
+  gen_divn_3_1 a0 a1 a2 = shr [a0; a1; a2] 1 /\
+  gen_divn_3_63 a0 a1 a2 = shr [a0; a1; a2] 63 /\
+  gen_divn_3_64 a0 a1 a2 = shr [a0; a1; a2] 64 /\
+  gen_divn_3_65 a0 a1 a2 = shr [a0; a1; a2] 65 /\
+  gen_divn_3_127 a0 a1 a2 = shr [a0; a1; a2] 127 /\
+  gen_divn_3_128 a0 a1 a2 = shr [a0; a1; a2] 128 /\
+  gen_divn_3_191 a0 a1 a2 = shr [a0; a1; a2] 191 /\
+  gen_divn_3_192 a0 a1 a2 = shr [a0; a1; a2] 192 /\
+  gen_divn_3_193 a0 a1 a2 = shr [a0; a1; a2] 193.
+Proof. exact gen_divn_3_eq. Qed.
+Theorem GenDerive_divn_3_spec : forall a0 a1 a2,
+  wf [a0; a1; a2] ->
+  (wf (gen_divn_3_0 a0 a1 a2) /\ val (gen_divn_3_0 a0 a1 a2) = val [a0; a1; a2] / 2 ^ 0) /\
+  (wf (gen_divn_3_1 a0 a1 a2) /\ val (gen_divn_3_1 a0 a1 a2) = val [a0; a1; a2] / 2 ^ 1) /\
+  (wf (gen_divn_3_63 a0 a1 a2) /\ val (gen_divn_3_63 a0 a1 a2) = val [a0; a1; a2] / 2 ^ 63) /\
+  (wf (gen_divn_3_64 a0 a1 a2) /\ val (gen_divn_3_64 a0 a1 a2) = val [a0; a1; a2] / 2 ^ 64) /\
+  (wf (gen_divn_3_65 a0 a1 a2) /\ val (gen_divn_3_65 a0 a1 a2) = val [a0; a1; a2] / 2 ^ 65) /\
+  (wf (gen_divn_3_127 a0 a1 a2) /\ val (gen_divn_3_127 a0 a1 a2) = val [a0; a1; a2] / 2 ^ 127) /\
+  (wf (gen_divn_3_128 a0 a1 a2) /\ val (gen_divn_3_128 a0 a1 a2) = val [a0; a1; a2] / 2 ^ 128) /\
+  (wf (gen_divn_3_191 a0 a1 a2) /\ val (gen_divn_3_191 a0 a1 a2) = val [a0; a1; a2] / 2 ^ 191) /\
+  (wf (gen_divn_3_192 a0 a1 a2) /\ val (gen_divn_3_192 a0 a1 a2) = val [a0; a1; a2] / 2 ^ 192) /\
+  (wf (gen_divn_3_193 a0 a1 a2) /\ val (gen_divn_3_193 a0 a1 a2) = val [a0; a1; a2] / 2 ^ 193).
+Proof. exact gen_divn_3_spec. Qed.
+Theorem GenDerive_divn_4_eq : forall a0 a1 a2 a3,
+  gen_divn_4_0 a0 a1 a2 a3 = shr [a0; a1; a2; a3] 0 /\
+  gen_divn_4_1 a0 a1 a2 a3 = shr [a0; a1; a2; a3] 1 /\
+  gen_divn_4_63 a0 a1 a2 a3 = shr [a0; a1; a2; a3] 63 /\
+  gen_divn_4_64 a0 a1 a2 a3 = shr [a0; a1; a2; a3] 64 /\
+  gen_divn_4_65 a0 a1 a2 a3 = shr [a0; a1; a2; a3] 65 /\
+  gen_divn_4_127 a0 a1 a2 a3 = shr [a0; a1; a2; a3] 127 /\
+  gen_divn_4_128 a0 a1 a2 a3 = shr [a0; a1; a2; a3] 128 /\
+  gen_divn_4_255 a0 a1 a2 a3 = shr [a0; a1; a2; a3] 255 /\
+  gen_divn_4_256 a0 a1 a2 a3 = shr [a0; a1; a2; a3] 256 /\
+  gen_divn_4_257 a0 a1 a2 a3 = shr [a0; a1; a2; a3] 257.
+Proof. exact gen_divn_4_eq. Qed.
+Theorem GenDerive_divn_4_spec : forall a0 a1 a2 a3,
+  wf [a0; a1; a2; a3] ->
+  (wf (gen_divn_4_0 a0 a1 a2 a3) /\ val (gen_divn_4_0 a0 a1 a2 a3) = val [a0; a1; a2; a3] / 2 ^ 0) /\
+  (wf (gen_divn_4_1 a0 a1 a2 a3) /\ val (gen_divn_4_1 a0 a1 a2 a3) = val [a0; a1; a2; a3] / 2 ^ 1) /\
+  (wf (gen_divn_4_63 a0 a1 a2 a3) /\ val (gen_divn_4_63 a0 a1 a2 a3) = val [a0; a1; a2; a3] / 2 ^ 63) /\
+  (wf (gen_divn_4_64 a0 a1 a2 a3) /\ val (gen_divn_4_64 a0 a1 a2 a3) = val [a0; a1; a2; a3] / 2 ^ 64) /\
+  (wf (gen_divn_4_65 a0 a1 a2 a3) /\ val (gen_divn_4_65 a0 a1 a2 a3) = val [a0; a1; a2; a3] / 2 ^ 65) /\
+  (wf (gen_divn_4_127 a0 a1 a2 a3) /\ val (gen_divn_4_127 a0 a1 a2 a3) = val [a0; a1; a2; a3] / 2 ^ 127) /\
+  (wf (gen_divn_4_128 a0 a1 a2 a3) /\ val (gen_divn_4_128 a0 a1 a2 a3) = val [a0; a1; a2; a3] / 2 ^ 128) /\
+  (wf (gen_divn_4_255 a0 a1 a2 a3) /\ val (gen_divn_4_255 a0 a1 a2 a3) = val [a0; a1; a2; a3] / 2 ^ 255) /\
+  (wf (gen_divn_4_256 a0 a1 a2 a3) /\ val (gen_divn_4_256 a0 a1 a2 a3) = val [a0; a1; a2; a3] / 2 ^ 256) /\
+  (wf (gen_divn_4_257 a0 a1 a2 a3) /\ val (gen_divn_4_257 a0 a1 a2 a3) = val [a0; a1; a2; a3] / 2 ^ 257).
+Proof. exact gen_divn_4_spec. Qed.
+Theorem GenDerive_shl_assign_1_eq : forall a0,
+  gen_shl_assign_1_0 a0 = shl [a0] 0 /\
+  gen_shl_assign_1_1 a0 = shl [a0] 1 /\
+  gen_shl_assign_1_63 a0 = shl [a0] 63 /\
+  gen_shl_assign_1_64 a0 = shl [a0] 64 /\
+  gen_shl_assign_1_65 a0 = shl [a0] 65 /\
+  gen_shl_assign_1_127 a0 = shl [a0] 127 /\
+  gen_shl_assign_1_128 a0 = shl [a0] 128.
+Proof. exact gen_shl_assign_1_eq. Qed.
+Theorem GenDerive_shl_assign_1_spec : forall a0,
+  wf [a0] ->
+  (wf (gen_shl_assign_1_0 a0) /\ val (gen_shl_assign_1_0 a0) = (val [a0] * 2 ^ 0) mod Wn 1) /\
+  (wf (gen_shl_assign_1_1 a0) /\ val (gen_shl_assign_1_1 a0) = (val [a0] * 2 ^ 1) mod Wn 1) /\
+  (wf (gen_shl_assign_1_63 a0) /\ val (gen_shl_assign_1_63 a0) = (val [a0] * 2 ^ 63) mod Wn 1) /\
+  (wf (gen_shl_assign_1_64 a0) /\ val (gen_shl_assign_1_64 a0) = (val [a0] * 2 ^ 64) mod Wn 1) /\
+  (wf (gen_shl_assign_1_65 a0) /\ val (gen_shl_assign_1_65 a0) = (val [a0] * 2 ^ 65) mod Wn 1) /\
+  (wf (gen_shl_assign_1_127 a0) /\ val (gen_shl_assign_1_127 a0) = (val [a0] * 2 ^ 127) mod Wn 1) /\
+  (wf (gen_shl_assign_1_128 a0) /\ val (gen_shl_assign_1_128 a0) = (val [a0] * 2 ^ 128) mod Wn 1).
+Proof. exact gen_shl_assign_1_spec. Qed.
+Theorem GenDerive_shl_assign_2_eq : forall a0 a1,
+  gen_shl_assign_2_0 a0 a1 = shl [a0; a1] 0 /\
+  gen_shl_assign_2_1 a0 a1 = shl [a0; a1] 1 /\
+  gen_shl_assign_2_63 a0 a1 = shl [a0; a1] 63 /\
+  gen_shl_assign_2_64 a0 a1 = shl [a0; a1] 64 /\
+  gen_shl_assign_2_65 a0 a1 = shl [a0; a1] 65 /\
+  gen_shl_assign_2_127 a0 a1 = shl [a0; a1] 127 /\
+  gen_shl_assign_2_128 a0 a1 = shl [a0; a1] 128 /\
+  gen_shl_assign_2_129 a0 a1 = shl [a0; a1] 129.
+Proof. exact gen_shl_assign_2_eq. Qed.
+Theorem GenDerive_shl_assign_2_spec : forall a0 a1,
+  wf [a0; a1] ->
+  (wf (gen_shl_assign_2_0 a0 a1) /\ val (gen_shl_assign_2_0 a0 a1) = (val [a0; a1] * 2 ^ 0) mod Wn 2) /\
+  (wf (gen_shl_assign_2_1 a0 a1) /\ val (gen_shl_assign_2_1 a0 a1) = (val [a0; a1] * 2 ^ 1) mod Wn 2) /\
+  (wf (gen_shl_assign_2_63 a0 a1) /\ val (gen_shl_assign_2_63 a0 a1) = (val [a0; a1] * 2 ^ 63) mod Wn 2) /\
+  (wf (gen_shl_assign_2_64 a0 a1) /\ val (gen_shl_assign_2_64 a0 a1) = (val [a0; a1] * 2 ^ 64) mod Wn 2) /\
+  (wf (gen_shl_assign_2_65 a0 a1) /\ val (gen_shl_assign_2_65 a0 a1) = (val [a0; a1] * 2 ^ 65) mod Wn 2) /\
+  (wf (gen_shl_assign_2_127 a0 a1) /\ val (gen_shl_assign_2_127 a0 a1) = (val [a0; a1] * 2 ^ 127) mod Wn 2) /\
+  (wf (gen_shl_assign_2_128 a0 a1) /\ val (gen_shl_assign_2_128 a0 a1) = (val [a0; a1] * 2 ^ 128) mod Wn 2) /\
+  (wf (gen_shl_assign_2_129 a0 a1) /\ val (gen_shl_assign_2_129 a0 a1) = (val [a0; a1] * 2 ^ 129) mod Wn 2).
+Proof. exact gen_shl_assign_2_spec. Qed.
+Theorem GenDerive_shl_assign_3_eq : forall a0 a1 a2,
+  gen_shl_assign_3_0 a0 a1 a2 = shl [a0; a1; a2] 0 /\
+  gen_shl_assign_3_1 a0 a1 a2 = shl [a0; a1; a2] 1 /\
+  gen_shl_assign_3_63 a0 a1 a2 = shl [a0; a1; a2] 63 /\
+  gen_shl_assign_3_64 a0 a1 a2 = shl [a0; a1; a2] 64 /\
+  gen_shl_assign_3_65 a0 a1 a2 = shl [a0; a1; a2] 65 /\
+  gen_shl_assign_3_127 a0 a1 a2 = shl [a0; a1; a2] 127 /\
+  gen_shl_assign_3_128 a0 a1 a2 = shl [a0; a1; a2] 128 /\
+  gen_shl_assign_3_191 a0 a1 a2 = shl [a0; a1; a2] 191 /\
+  gen_shl_assign_3_192 a0 a1 a2 = shl [a0; a1; a2] 192 /\
+  gen_shl_assign_3_193 a0 a1 a2 = shl [a0; a1; a2] 193.
+Proof. exact gen_shl_assign_3_eq. Qed.
+Theorem GenDerive_shl_assign_3_spec : forall a0 a1 a2,
+  wf [a0; a1; a2] ->
+  (wf (gen_shl_assign_3_0 a0 a1 a2) /\ val (gen_shl_assign_3_0 a0 a1 a2) = (val [a0; a1; a2] * 2 ^ 0) mod Wn 3) /\
+  (wf (gen_shl_assign_3_1 a0 a1 a2) /\ val (gen_shl_assign_3_1 a0 a1 a2) = (val [a0; a1; a2] * 2 ^ 1) mod Wn 3) /\
+  (wf (gen_shl_assign_3_63 a0 a1 a2) /\ val (gen_shl_assign_3_63 a0 a1 a2) = (val [a0; a1; a2] * 2 ^ 63) mod Wn 3) /\
+  (wf (gen_shl_assign_3_64 a0 a1 a2) /\ val (gen_shl_assign_3_64 a0 a1 a2) = (val [a0; a1; a2] * 2 ^ 64) mod Wn 3) /\
+  (wf (gen_shl_assign_3_65 a0 a1 a2) /\ val (gen_shl_assign_3_65 a0 a1 a2) = (val [a0; a1; a2] * 2 ^ 65) mod Wn 3) /\
+  (wf (gen_shl_assign_3_127 a0 a1 a2) /\ val (gen_shl_assign_3_127 a0 a1 a2) = (val [a0; a1; a2] * 2 ^ 127) mod Wn 3) /\
+  (wf (gen_shl_assign_3_128 a0 a1 a2) /\ val (gen_shl_assign_3_128 a0 a1 a2) = (val [a0; a1; a2] * 2 ^ 128) mod Wn 3) /\
+  (wf (gen_shl_assign_3_191 a0 a1 a2) /\ val (gen_shl_assign_3_191 a0 a1 a2) = (val [a0; a1; a2] * 2 ^ 191) mod Wn 3) /\
+  (wf (gen_shl_assign_3_192 a0 a1 a2) /\ val (gen_shl_assign_3_192 a0 a1 a2) = (val [a0; a1; a2] * 2 ^ 192) mod Wn 3) /\
+  (wf (gen_shl_assign_3_193 a0 a1 a2) /\ val (gen_shl_assign_3_193 a0 a1 a2) = (val [a0; a1; a2] * 2 ^ 193) mod Wn 3).
+Proof. exact gen_shl_assign_3_spec. Qed.
+Theorem GenDerive_shl_assign_4_eq : forall a0 a1 a2 a3,
+  gen_shl_assign_4_0 a0 a1 a2 a3 = shl [a0; a1; a2; a3] 0 /\
+  gen_shl_assign_4_1 a0 a1 a2 a3 = shl [a0; a1; a2; a3] 1 /\
+  gen_shl_assign_4_63 a0 a1 a2 a3 = shl [a0; a1; a2; a3] 63 /\
+  gen_shl_assign_4_64 a0 a1 a2 a3 = shl [a0; a1; a2; a3] 64 /\
+  gen_shl_assign_4_65 a0 a1 a2 a3 = shl [a0; a1; a2; a3] 65 /\
+  gen_shl_assign_4_127 a0 a1 a2 a3 = shl [a0; a1; a2; a3] 127 /\
+  gen_shl_assign_4_128 a0 a1 a2 a3 = shl [a0; a1; a2; a3] 128 /\
+  gen_shl_assign_4_255 a0 a1 a2 a3 = shl [a0; a1; a2; a3] 255 /\
+  gen_shl_assign_4_256 a0 a1 a2 a3 = shl [a0; a1; a2; a3] 256 /\
+  gen_shl_assign_4_257 a0 a1 a2 a3 = shl [a0; a1; a2; a3] 257.
+Proof. exact gen_shl_assign_4_eq. Qed.
+Theorem GenDerive_shl_assign_4_spec : forall a0 a1 a2 a3,
+  wf [a0; a1; a2; a3] ->
+  (wf (gen_shl_assign_4_0 a0 a1 a2 a3) /\ val (gen_shl_assign_4_0 a0 a1 a2 a3) = (val [a0; a1; a2; a3] * 2 ^ 0) mod Wn 4) /\
+  (wf (gen_shl_assign_4_1 a0 a1 a2 a3) /\ val (gen_shl_assign_4_1 a0 a1 a2 a3) = (val [a0; a1; a2; a3] * 2 ^ 1) mod Wn 4) /\
+  (wf (gen_shl_assign_4_63 a0 a1 a2 a3) /\ val (gen_shl_assign_4_63 a0 a1 a2 a3) = (val [a0; a1; a2; a3] * 2 ^ 63) mod Wn 4) /\
+  (wf (gen_shl_assign_4_64 a0 a1 a2 a3) /\ val (gen_shl_assign_4_64 a0 a1 a2 a3) = (val [a0; a1; a2; a3] * 2 ^ 64) mod Wn 4) /\
+  (wf (gen_shl_assign_4_65 a0 a1 a2 a3) /\ val (gen_shl_assign_4_65 a0 a1 a2 a3) = (val [a0; a1; a2; a3] * 2 ^ 65) mod Wn 4) /\
+  (wf (gen_shl_assign_4_127 a0 a1 a2 a3) /\ val (gen_shl_assign_4_127 a0 a1 a2 a3) = (val [a0; a1; a2; a3] * 2 ^ 127) mod Wn 4) /\
+  (wf (gen_shl_assign_4_128 a0 a1 a2 a3) /\ val (gen_shl_assign_4_128 a0 a1 a2 a3) = (val [a0; a1; a2; a3] * 2 ^ 128) mod Wn 4) /\
+  (wf (gen_shl_assign_4_255 a0 a1 a2 a3) /\ val (gen_shl_assign_4_255 a0 a1 a2 a3) = (val [a0; a1; a2; a3] * 2 ^ 255) mod Wn 4) /\
+  (wf (gen_shl_assign_4_256 a0 a1 a2 a3) /\ val (gen_shl_assign_4_256 a0 a1 a2 a3) = (val [a0; a1; a2; a3] * 2 ^ 256) mod Wn 4) /\
+  (wf (gen_shl_assign_4_257 a0 a1 a2 a3) /\ val (gen_shl_assign_4_257 a0 a1 a2 a3) = (val [a0; a1; a2; a3] * 2 ^ 257) mod Wn 4).
+Proof. exact gen_shl_assign_4_spec. Qed.
+Theorem GenDerive_shr_assign_1_eq : forall a0,
+  gen_shr_assign_1_0 a0 = shr [a0] 0 /\
+  gen_shr_assign_1_1 a0 = shr [a0] 1 /\
+  gen_shr_assign_1_63 a0 = shr [a0] 63 /\
+  gen_shr_assign_1_64 a0 = shr [a0] 64 /\
+  gen_shr_assign_1_65 a0 = shr [a0] 65 /\
+  gen_shr_assign_1_127 a0 = shr [a0] 127 /\
+  gen_shr_assign_1_128 a0 = shr [a0] 128.
+Proof. exact gen_shr_assign_1_eq. Qed.
+Theorem GenDerive_shr_assign_1_spec : forall a0,
+  wf [a0] ->
+  (wf (gen_shr_assign_1_0 a0) /\ val (gen_shr_assign_1_0 a0) = val [a0] / 2 ^ 0) /\
+  (wf (gen_shr_assign_1_1 a0) /\ val (gen_shr_assign_1_1 a0) = val [a0] / 2 ^ 1) /\
+  (wf (gen_shr_assign_1_63 a0) /\ val (gen_shr_assign_1_63 a0) = val [a0] / 2 ^ 63) /\
+  (wf (gen_shr_assign_1_64 a0) /\ val (gen_shr_assign_1_64 a0) = val [a0] / 2 ^ 64) /\
+  (wf (gen_shr_assign_1_65 a0) /\ val (gen_shr_assign_1_65 a0) = val [a0] / 2 ^ 65) /\
+  (wf (gen_shr_assign_1_127 a0) /\ val (gen_shr_assign_1_127 a0) = val [a0] / 2 ^ 127) /\
+  (wf (gen_shr_assign_1_128 a0) /\ val (gen_shr_assign_1_128 a0) = val [a0] / 2 ^ 128).
+Proof. exact gen_shr_assign_1_spec. Qed.
+Theorem GenDerive_shr_assign_2_eq : forall a0 a1,
+  gen_shr_assign_2_0 a0 a1 = shr [a0; a1] 0 /\
+  gen_shr_assign_2_1 a0 a1 = shr [a0; a1] 1 /\
+  gen_shr_assign_2_63 a0 a1 = shr [a0; a1] 63 /\
+  gen_shr_assign_2_64 a0 a1 = shr [a0; a1] 64 /\
+  gen_shr_assign_2_65 a0 a1 = shr [a0; a1] 65 /\
+  gen_shr_assign_2_127 a0 a1 = shr [a0; a1] 127 /\
+  gen_shr_assign_2_128 a0 a1 = shr [a0; a1] 128 /\
+  gen_shr_assign_2_129 a0 a1 = shr [a0; a1] 129.
+Proof. exact gen_shr_assign_2_eq. Qed.
+Theorem GenDerive_shr_assign_2_spec : forall a0 a1,
+  wf [a0; a1] ->
+  (wf (gen_shr_assign_2_0 a0 a1) /\ val (gen_shr_assign_2_0 a0 a1) = val [a0; a1] / 2 ^ 0) /\
+  (wf (gen_shr_assign_2_1 a0 a1) /\ val (gen_shr_assign_2_1 a0 a1) = val [a0; a1] / 2 ^ 1) /\
+  (wf (gen_shr_assign_2_63 a0 a1) /\ val (gen_shr_assign_2_63 a0 a1) = val [a0; a1] / 2 ^ 63) /\
+  (wf (gen_shr_assign_2_64 a0 a1) /\ val (gen_shr_assign_2_64 a0 a1) = val [a0; a1] / 2 ^ 64) /\
+  (wf (gen_shr_assign_2_65 a0 a1) /\ val (gen_shr_assign_2_65 a0 a1) = val [a0; a1] / 2 ^ 65) /\
+  (wf (gen_shr_assign_2_127 a0 a1) /\ val (gen_shr_assign_2_127 a0 a1) = val [a0; a1] / 2 ^ 127) /\
+  (wf (gen_shr_assign_2_128 a0 a1) /\ val (gen_shr_assign_2_128 a0 a1) = val [a0; a1] / 2 ^ 128) /\
+  (wf (gen_shr_assign_2_129 a0 a1) /\ val (gen_shr_assign_2_129 a0 a1) = val [a0; a1] / 2 ^ 129).
+Proof. exact gen_shr_assign_2_spec. Qed.
+Theorem GenDerive_shr_assign_3_eq : forall a0 a1 a2,
+  gen_shr_assign_3_0 a0 a1 a2 = shr [a0; a1; a2] 0 /\
+  gen_shr_assign_3_1 a0 a1 a2 = shr [a0; a1; a2] 1 /\
+  gen_shr_assign_3_63 a0 a1 a2 = shr [a0; a1; a2] 63 /\
+  gen_shr_assign_3_64 a0 a1 a2 = shr [a0; a1; a2] 64 /\
+  gen_shr_assign_3_65 a0 a1 a2 = shr [a0; a1; a2] 65 /\
+  gen_shr_assign_3_127 a0 a1 a2 = shr [a0; a1; a2] 127 /\
+  gen_shr_assign_3_128 a0 a1 a2 = shr [a0; a1; a2] 128 /\
+  gen_shr_assign_3_191 a0 a1 a2 = shr [a0; a1; a2] 191 /\
+  gen_shr_assign_3_192 a0 a1 a2 = shr [a0; a1; a2] 192 /\
+  gen_shr_assign_3_193 a0 a1 a2 = shr [a0; a1; a2] 193.
+Proof. exact gen_shr_assign_3_eq. Qed.
+Theorem GenDerive_shr_assign_3_spec : forall a0 a1 a2,
+  wf [a0; a1; a2] ->
+  (wf (gen_shr_assign_3_0 a0 a1 a2) /\ val (gen_shr_assign_3_0 a0 a1 a2) = val [a0; a1; a2] / 2 ^ 0) /\
+  (wf (gen_shr_assign_3_1 a0 a1 a2) /\ val (gen_shr_assign_3_1 a0 a1 a2) = val [a0; a1; a2] / 2 ^ 1) /\
+  (wf (gen_shr_assign_3_63 a0 a1 a2) /\ val (gen_shr_assign_3_63 a0 a1 a2) = val [a0; a1; a2] / 2 ^ 63) /\
+  (wf (gen_shr_assign_3_64 a0 a1 a2) /\ val (gen_shr_assign_3_64 a0 a1 a2) = val [a0; a1; a2] / 2 ^ 64) /\
+  (wf (gen_shr_assign_3_65 a0 a1 a2) /\ val (gen_shr_assign_3_65 a0 a1 a2) = val [a0; a1; a2] / 2 ^ 65) /\
+  (wf (gen_shr_assign_3_127 a0 a1 a2) /\ val (gen_shr_assign_3_127 a0 a1 a2) = val [a0; a1; a2] / 2 ^ 127) /\
+  (wf (gen_shr_assign_3_128 a0 a1 a2) /\ val (gen_shr_assign_3_128 a0 a1 a2) = val [a0; a1; a2] / 2 ^ 128) /\
+  (wf (gen_shr_assign_3_191 a0 a1 a2) /\ val (gen_shr_assign_3_191 a0 a1 a2) = val [a0; a1; a2] / 2 ^ 191) /\
+  (wf (gen_shr_assign_3_192 a0 a1 a2) /\ val (gen_shr_assign_3_192 a0 a1 a2) = val [a0; a1; a2] / 2 ^ 192) /\
+  (wf (gen_shr_assign_3_193 a0 a1 a2) /\ val (gen_shr_assign_3_193 a0 a1 a2) = val [a0; a1; a2] / 2 ^ 193).
+Proof. exact gen_shr_assign_3_spec. Qed.
+Theorem GenDerive_shr_assign_4_eq : forall a0 a1 a2 a3,
+  gen_shr_assign_4_0 a0 a1 a2 a3 = shr [a0; a1; a2; a3] 0 /\
+  gen_shr_assign_4_1 a0 a1 a2 a3 = shr [a0; a1; a2; a3] 1 /\
+  gen_shr_assign_4_63 a0 a1 a2 a3 = shr [a0; a1; a2; a3] 63 /\
+  gen_shr_assign_4_64 a0 a1 a2 a3 = shr [a0; a1; a2; a3] 64 /\
+  gen_shr_assign_4_65 a0 a1 a2 a3 = shr [a0; a1; a2; a3] 65 /\
+  gen_shr_assign_4_127 a0 a1 a2 a3 = shr [a0; a1; a2; a3] 127 /\
+  gen_shr_assign_4_128 a0 a1 a2 a3 = shr [a0; a1; a2; a3] 128 /\
+  gen_shr_assign_4_255 a0 a1 a2 a3 = shr [a0; a1; a2; a3] 255 /\
+  gen_shr_assign_4_256 a0 a1 a2 a3 = shr [a0; a1; a2; a3] 256 /\
+  gen_shr_assign_4_257 a0 a1 a2 a3 = shr [a0; a1; a2; a3] 257.
+Proof. exact gen_shr_assign_4_eq. Qed.
+Theorem GenDerive_shr_assign_4_spec : forall a0 a1 a2 a3,
+  wf [a0; a1; a2; a3] ->
+  (wf (gen_shr_assign_4_0 a0 a1 a2 a3) /\ val (gen_shr_assign_4_0 a0 a1 a2 a3) = val [a0; a1; a2; a3] / 2 ^ 0) /\
+  (wf (gen_shr_assign_4_1 a0 a1 a2 a3) /\ val (gen_shr_assign_4_1 a0 a1 a2 a3) = val [a0; a1; a2; a3] / 2 ^ 1) /\
+  (wf (gen_shr_assign_4_63 a0 a1 a2 a3) /\ val (gen_shr_assign_4_63 a0 a1 a2 a3) = val [a0; a1; a2; a3] / 2 ^ 63) /\
+  (wf (gen_shr_assign_4_64 a0 a1 a2 a3) /\ val (gen_shr_assign_4_64 a0 a1 a2 a3) = val [a0; a1; a2; a3] / 2 ^ 64) /\
+  (wf (gen_shr_assign_4_65 a0 a1 a2 a3) /\ val (gen_shr_assign_4_65 a0 a1 a2 a3) = val [a0; a1; a2; a3] / 2 ^ 65) /\
+  (wf (gen_shr_assign_4_127 a0 a1 a2 a3) /\ val (gen_shr_assign_4_127 a0 a1 a2 a3) = val [a0; a1; a2; a3] / 2 ^ 127) /\
+  (wf (gen_shr_assign_4_128 a0 a1 a2 a3) /\ val (gen_shr_assign_4_128 a0 a1 a2 a3) = val [a0; a1; a2; a3] / 2 ^ 128) /\
+  (wf (gen_shr_assign_4_255 a0 a1 a2 a3) /\ val (gen_shr_assign_4_255 a0 a1 a2 a3) = val [a0; a1; a2; a3] / 2 ^ 255) /\
+  (wf (gen_shr_assign_4_256 a0 a1 a2 a3) /\ val (gen_shr_assign_4_256 a0 a1 a2 a3) = val [a0; a1; a2; a3] / 2 ^ 256) /\
+  (wf (gen_shr_assign_4_257 a0 a1 a2 a3) /\ val (gen_shr_assign_4_257 a0 a1 a2 a3) = val [a0; a1; a2; a3] / 2 ^ 257).
+Proof. exact gen_shr_assign_4_spec. Qed.
+Theorem GenDerive_shl_1_eq : forall a0,
+  gen_shl_1_0 a0 = shl [a0] 0 /\
+  gen_shl_1_1 a0 = shl [a0] 1 /\
+  gen_shl_1_63 a0 = shl [a0] 63 /\
+  gen_shl_1_64 a0 = shl [a0] 64 /\
+  gen_shl_1_65 a0 = shl [a0] 65 /\
+  gen_shl_1_127 a0 = shl [a0] 127 /\
+  gen_shl_1_128 a0 = shl [a0] 128.
+Proof. exact gen_shl_1_eq. Qed.
+Theorem GenDerive_shl_1_spec : forall a0,
+  wf [a0] ->
+  (wf (gen_shl_1_0 a0) /\ val (gen_shl_1_0 a0) = (val [a0] * 2 ^ 0) mod Wn 1) /\
+  (wf (gen_shl_1_1 a0) /\ val (gen_shl_1_1 a0) = (val [a0] * 2 ^ 1) mod Wn 1) /\
+  (wf (gen_shl_1_63 a0) /\ val (gen_shl_1_63 a0) = (val [a0] * 2 ^ 63) mod Wn 1) /\
+  (wf (gen_shl_1_64 a0) /\ val (gen_shl_1_64 a0) = (val [a0] * 2 ^ 64) mod Wn 1) /\
+  (wf (gen_shl_1_65 a0) /\ val (gen_shl_1_65 a0) = (val [a0] * 2 ^ 65) mod Wn 1) /\
+  (wf (gen_shl_1_127 a0) /\ val (gen_shl_1_127 a0) = (val [a0] * 2 ^ 127) mod Wn 1) /\
+  (wf (gen_shl_1_128 a0) /\ val (gen_shl_1_128 a0) = (val [a0] * 2 ^ 128) mod Wn 1).
+Proof. exact gen_shl_1_spec. Qed.
+Theorem GenDerive_shl_2_eq : forall a0 a1,
+  gen_shl_2_0 a0 a1 = shl [a0; a1] 0 /\
+  gen_shl_2_1 a0 a1 = shl [a0; a1] 1 /\
+  gen_shl_2_63 a0 a1 = shl [a0; a1] 63 /\
+  gen_shl_2_64 a0 a1 = shl [a0; a1] 64 /\
+  gen_shl_2_65 a0 a1 = shl [a0; a1] 65 /\
+  gen_shl_2_127 a0 a1 = shl [a0; a1] 127 /\
+  gen_shl_2_128 a0 a1 = shl [a0; a1] 128 /\
+  gen_shl_2_129 a0 a1 = shl [a0; a1] 129.
+Proof. exact gen_shl_2_eq. Qed.
+Theorem GenDerive_shl_2_spec : forall a0 a1,
+  wf [a0; a1] ->
+  (wf (gen_shl_2_0 a0 a1) /\ val (gen_shl_2_0 a0 a1) = (val [a0; a1] * 2 ^ 0) mod Wn 2) /\
+  (wf (gen_shl_2_1 a0 a1) /\ val (gen_shl_2_1 a0 a1) = (val [a0; a1] * 2 ^ 1) mod Wn 2) /\
+  (wf (gen_shl_2_63 a0 a1) /\ val (gen_shl_2_63 a0 a1) = (val [a0; a1] * 2 ^ 63) mod Wn 2) /\
+  (wf (gen_shl_2_64 a0 a1) /\ val (gen_shl_2_64 a0 a1) = (val [a0; a1] * 2 ^ 64) mod Wn 2) /\
+  (wf (gen_shl_2_65 a0 a1) /\ val (gen_shl_2_65 a0 a1) = (val [a0; a1] * 2 ^ 65) mod Wn 2) /\
+  (wf (gen_shl_2_127 a0 a1) /\ val (gen_shl_2_127 a0 a1) = (val [a0; a1] * 2 ^ 127) mod Wn 2) /\
+  (wf (gen_shl_2_128 a0 a1) /\ val (gen_shl_2_128 a0 a1) = (val [a0; a1] * 2 ^ 128) mod Wn 2) /\
+  (wf (gen_shl_2_129 a0 a1) /\ val (gen_shl_2_129 a0 a1) = (val [a0; a1] * 2 ^ 129) mod Wn 2).
+Proof. exact gen_shl_2_spec. Qed.
+Theorem GenDerive_shl_3_eq : forall a0 a1 a2,
+  gen_shl_3_0 a0 a1 a2 = shl [a0; a1; a2] 0 /\
+  gen_shl_3_1 a0 a1 a2 = shl [a0; a1; a2] 1 /\
+  gen_shl_3_63 a0 a1 a2 = shl [a0; a1; a2] 63 /\
+  gen_shl_3_64 a0 a1 a2 = shl [a0; a1; a2] 64 /\
+  gen_shl_3_65 a0 a1 a2 = shl [a0; a1; a2] 65 /\
+  gen_shl_3_127 a0 a1 a2 = shl [a0; a1; a2] 127 /\
+  gen_shl_3_128 a0 a1 a2 = shl [a0; a1; a2] 128 /\
+  gen_shl_3_191 a0 a1 a2 = shl [a0; a1; a2] 191 /\
+  gen_shl_3_192 a0 a1 a2 = shl [a0; a1; a2] 192 /\
+  gen_shl_3_193 a0 a1 a2 = shl [a0; a1; a2] 193.
+Proof. exact gen_shl_3_eq. Qed.
+Theorem GenDerive_shl_3_spec : forall a0 a1 a2,
+  wf [a0; a1; a2] ->
+  (wf (gen_shl_3_0 a0 a1 a2) /\ val (gen_shl_3_0 a0 a1 a2) = (val [a0; a1; a2] * 2 ^ 0) mod Wn 3) /\
+  (wf (gen_shl_3_1 a0 a1 a2) /\ val (gen_shl_3_1 a0 a1 a2) = (val [a0; a1; a2] * 2 ^ 1) mod Wn 3) /\
+  (wf (gen_shl_3_63 a0 a1 a2) /\ val (gen_shl_3_63 a0 a1 a2) = (val [a0; a1; a2] * 2 ^ 63) mod Wn 3) /\
+  (wf (gen_shl_3_64 a0 a1 a2) /\ val (gen_shl_3_64 a0 a1 a2) = (val [a0; a1; a2] * 2 ^ 64) mod Wn 3) /\
+  (wf (gen_shl_3_65 a0 a1 a2) /\ val (gen_shl_3_65 a0 a1 a2) = (val [a0; a1; a2] * 2 ^ 65) mod Wn 3) /\
+  (wf (gen_shl_3_127 a0 a1 a2) /\ val (gen_shl_3_127 a0 a1 a2) = (val [a0; a1; a2] * 2 ^ 127) mod Wn 3) /\
+  (wf (gen_shl_3_128 a0 a1 a2) /\ val (gen_shl_3_128 a0 a1 a2) = (val [a0; a1; a2] * 2 ^ 128) mod Wn 3) /\
+  (wf (gen_shl_3_191 a0 a1 a2) /\ val (gen_shl_3_191 a0 a1 a2) = (val [a0; a1; a2] * 2 ^ 191) mod Wn 3) /\
+  (wf (gen_shl_3_192 a0 a1 a2) /\ val (gen_shl_3_192 a0 a1 a2) = (val [a0; a1; a2] * 2 ^ 192) mod Wn 3) /\
+  (wf (gen_shl_3_193 a0 a1 a2) /\ val (gen_shl_3_193 a0 a1 a2) = (val [a0; a1; a2] * 2 ^ 193) mod Wn 3).
+Proof. exact gen_shl_3_spec. Qed.
+Theorem GenDerive_shl_4_eq : forall a0 a1 a2 a3,
+  gen_shl_4_0 a0 a1 a2 a3 = shl [a0; a1; a2; a3] 0 /\
+  gen_shl_4_1 a0 a1 a2 a3 = shl [a0; a1; a2; a3] 1 /\
+  gen_shl_4_63 a0 a1 a2 a3 = shl [a0; a1; a2; a3] 63 /\
+  gen_shl_4_64 a0 a1 a2 a3 = shl [a0; a1; a2; a3] 64 /\
+  gen_shl_4_65 a0 a1 a2 a3 = shl [a0; a1; a2; a3] 65 /\
+  gen_shl_4_127 a0 a1 a2 a3 = shl [a0; a1; a2; a3] 127 /\
+  gen_shl_4_128 a0 a1 a2 a3 = shl [a0; a1; a2; a3] 128 /\
+  gen_shl_4_255 a0 a1 a2 a3 = shl [a0; a1; a2; a3] 255 /\
+  gen_shl_4_256 a0 a1 a2 a3 = shl [a0; a1; a2; a3] 256 /\
+  gen_shl_4_257 a0 a1 a2 a3 = shl [a0; a1; a2; a3] 257.
+Proof. exact gen_shl_4_eq. Qed.
+Theorem GenDerive_shl_4_spec : forall a0 a1 a2 a3,
+  wf [a0; a1; a2; a3] ->
+  (wf (gen_shl_4_0 a0 a1 a2 a3) /\ val (gen_shl_4_0 a0 a1 a2 a3) = (val [a0; a1; a2; a3] * 2 ^ 0) mod Wn 4) /\
+  (wf (gen_shl_4_1 a0 a1 a2 a3) /\ val (gen_shl_4_1 a0 a1 a2 a3) = (val [a0; a1; a2; a3] * 2 ^ 1) mod Wn 4) /\
+  (wf (gen_shl_4_63 a0 a1 a2 a3) /\ val (gen_shl_4_63 a0 a1 a2 a3) = (val [a0; a1; a2; a3] * 2 ^ 63) mod Wn 4) /\
+  (wf (gen_shl_4_64 a0 a1 a2 a3) /\ val (gen_shl_4_64 a0 a1 a2 a3) = (val [a0; a1; a2; a3] * 2 ^ 64) mod Wn 4) /\
+  (wf (gen_shl_4_65 a0 a1 a2 a3) /\ val (gen_shl_4_65 a0 a1 a2 a3) = (val [a0; a1; a2; a3] * 2 ^ 65) mod Wn 4) /\
+  (wf (gen_shl_4_127 a0 a1 a2 a3) /\ val (gen_shl_4_127 a0 a1 a2 a3) = (val [a0; a1; a2; a3] * 2 ^ 127) mod Wn 4) /\
+  (wf (gen_shl_4_128 a0 a1 a2 a3) /\ val (gen_shl_4_128 a0 a1 a2 a3) = (val [a0; a1; a2; a3] * 2 ^ 128) mod Wn 4) /\
+  (wf (gen_shl_4_255 a0 a1 a2 a3) /\ val (gen_shl_4_255 a0 a1 a2 a3) = (val [a0; a1; a2; a3] * 2 ^ 255) mod Wn 4) /\
+  (wf (gen_shl_4_256 a0 a1 a2 a3) /\ val (gen_shl_4_256 a0 a1 a2 a3) = (val [a0; a1; a2; a3] * 2 ^ 256) mod Wn 4) /\
+  (wf (gen_shl_4_257 a0 a1 a2 a3) /\ val (gen_shl_4_257 a0 a1 a2 a3) = (val [a0; a1; a2; a3] * 2 ^ 257) mod Wn 4).
+Proof. exact gen_shl_4_spec. Qed.
+Theorem GenDerive_shr_1_eq : forall a0,
+  gen_shr_1_0 a0 = shr [a0] 0 /\
+  gen_shr_1_1 a0 = shr [a0] 1 /\
+  gen_shr_1_63 a0 = shr [a0] 63 /\
+  gen_shr_1_64 a0 = shr [a0] 64 /\
+  gen_shr_1_65 a0 = shr [a0] 65 /\
+  gen_shr_1_127 a0 = shr [a0] 127 /\
+  gen_shr_1_128 a0 = shr [a0] 128.
+Proof. exact gen_shr_1_eq. Qed.
+Theorem GenDerive_shr_1_spec : forall a0,
+  wf [a0] ->
+  (wf (gen_shr_1_0 a0) /\ val (gen_shr_1_0 a0) = val [a0] / 2 ^ 0) /\
+  (wf (gen_shr_1_1 a0) /\ val (gen_shr_1_1 a0) = val [a0] / 2 ^ 1) /\
+  (wf (gen_shr_1_63 a0) /\ val (gen_shr_1_63 a0) = val [a0] / 2 ^ 63) /\
+  (wf (gen_shr_1_64 a0) /\ val (gen_shr_1_64 a0) = val [a0] / 2 ^ 64) /\
+  (wf (gen_shr_1_65 a0) /\ val (gen_shr_1_65 a0) = val [a0] / 2 ^ 65) /\
+  (wf (gen_shr_1_127 a0) /\ val (gen_shr_1_127 a0) = val [a0] / 2 ^ 127) /\
+  (wf (gen_shr_1_128 a0) /\ val (gen_shr_1_128 a0) = val [a0] / 2 ^ 128).
+Proof. exact gen_shr_1_spec. Qed.
+Theorem GenDerive_shr_2_eq : forall a0 a1,
+  gen_shr_2_0 a0 a1 = shr [a0; a1] 0 /\
+  gen_shr_2_1 a0 a1 = shr [a0; a1] 1 /\
+  gen_shr_2_63 a0 a1 = shr [a0; a1] 63 /\
+  gen_shr_2_64 a0 a1 = shr [a0; a1] 64 /\
+  gen_shr_2_65 a0 a1 = shr [a0; a1] 65 /\
+  gen_shr_2_127 a0 a1 = shr [a0; a1] 127 /\
+  gen_shr_2_128 a0 a1 = shr [a0; a1] 128 /\
+  gen_shr_2_129 a0 a1 = shr [a0; a1] 129.
+Proof. exact gen_shr_2_eq. Qed.
+Theorem GenDerive_shr_2_spec : forall a0 a1,
+  wf [a0; a1] ->
+  (wf (gen_shr_2_0 a0 a1) /\ val (gen_shr_2_0 a0 a1) = val [a0; a1] / 2 ^ 0) /\
+  (wf (gen_shr_2_1 a0 a1) /\ val (gen_shr_2_1 a0 a1) = val [a0; a1] / 2 ^ 1) /\
+  (wf (gen_shr_2_63 a0 a1) /\ val (gen_shr_2_63 a0 a1) = val [a0; a1] / 2 ^ 63) /\
+  (wf (gen_shr_2_64 a0 a1) /\ val (gen_shr_2_64 a0 a1) = val [a0; a1] / 2 ^ 64) /\
+  (wf (gen_shr_2_65 a0 a1) /\ val (gen_shr_2_65 a0 a1) = val [a0; a1] / 2 ^ 65) /\
+  (wf (gen_shr_2_127 a0 a1) /\ val (gen_shr_2_127 a0 a1) = val [a0; a1] / 2 ^ 127) /\
+  (wf (gen_shr_2_128 a0 a1) /\ val (gen_shr_2_128 a0 a1) = val [a0; a1] / 2 ^ 128) /\
+  (wf (gen_shr_2_129 a0 a1) /\ val (gen_shr_2_129 a0 a1) = val [a0; a1] / 2 ^ 129).
+Proof. exact gen_shr_2_spec. Qed.
+Theorem GenDerive_shr_3_eq : forall a0 a1 a2,
+  gen_shr_3_0 a0 a1 a2 = shr [a0; a1; a2] 0 /\
+  gen_shr_3_1 a0 a1 a2 = shr [a0; a1; a2] 1 /\
+  gen_shr_3_63 a0 a1 a2 = shr [a0; a1; a2] 63 /\
+  gen_shr_3_64 a0 a1 a2 = shr [a0; a1; a2] 64 /\
+  gen_shr_3_65 a0 a1 a2 = shr [a0; a1; a2] 65 /\
+  gen_shr_3_127 a0 a1 a2 = shr [a0; a1; a2] 127 /\
+  gen_shr_3_128 a0 a1 a2 = shr [a0; a1; a2] 128 /\
+  gen_shr_3_191 a0 a1 a2 = shr [a0; a1; a2] 191 /\
+  gen_shr_3_192 a0 a1 a2 = shr [a0; a1; a2] 192 /\
+  gen_shr_3_193 a0 a1 a2 = shr [a0; a1; a2] 193.
+Proof. exact gen_shr_3_eq. Qed.
+Theorem GenDerive_shr_3_spec : forall a0 a1 a2,
+  wf [a0; a1; a2] ->
+  (wf (gen_shr_3_0 a0 a1 a2) /\ val (gen_shr_3_0 a0 a1 a2) = val [a0; a1; a2] / 2 ^ 0) /\
+  (wf (gen_shr_3_1 a0 a1 a2) /\ val (gen_shr_3_1 a0 a1 a2) = val [a0; a1; a2] / 2 ^ 1) /\
+  (wf (gen_shr_3_63 a0 a1 a2) /\ val (gen_shr_3_63 a0 a1 a2) = val [a0; a1; a2] / 2 ^ 63) /\
+  (wf (gen_shr_3_64 a0 a1 a2) /\ val (gen_shr_3_64 a0 a1 a2) = val [a0; a1; a2] / 2 ^ 64) /\
+  (wf (gen_shr_3_65 a0 a1 a2) /\ val (gen_shr_3_65 a0 a1 a2) = val [a0; a1; a2] / 2 ^ 65) /\
+  (wf (gen_shr_3_127 a0 a1 a2) /\ val (gen_shr_3_127 a0 a1 a2) = val [a0; a1; a2] / 2 ^ 127) /\
+  (wf (gen_shr_3_128 a0 a1 a2) /\ val (gen_shr_3_128 a0 a1 a2) = val [a0; a1; a2] / 2 ^ 128) /\
+  (wf (gen_shr_3_191 a0 a1 a2) /\ val (gen_shr_3_191 a0 a1 a2) = val [a0; a1; a2] / 2 ^ 191) /\
+  (wf (gen_shr_3_192 a0 a1 a2) /\ val (gen_shr_3_192 a0 a1 a2) = val [a0; a1; a2] / 2 ^ 192) /\
+  (wf (gen_shr_3_193 a0 a1 a2) /\ val (gen_shr_3_193 a0 a1 a2) = val [a0; a1; a2] / 2 ^ 193).
+Proof. exact gen_shr_3_spec. Qed.
+Theorem GenDerive_shr_4_eq : forall a0 a1 a2 a3,
+  gen_shr_4_0 a0 a1 a2 a3 = shr [a0; a1; a2; a3] 0 /\
+  gen_shr_4_1 a0 a1 a2 a3 = shr [a0; a1; a2; a3] 1 /\
+  gen_shr_4_63 a0 a1 a2 a3 = shr [a0; a1; a2; a3] 63 /\
+  gen_shr_4_64 a0 a1 a2 a3 = shr [a0; a1; a2; a3] 64 /\
+  gen_shr_4_65 a0 a1 a2 a3 = shr [a0; a1; a2; a3] 65 /\
+  gen_shr_4_127 a0 a1 a2 a3 = shr [a0; a1; a2; a3] 127 /\
+  gen_shr_4_128 a0 a1 a2 a3 = shr [a0; a1; a2; a3] 128 /\
+  gen_shr_4_255 a0 a1 a2 a3 = shr [a0; a1; a2; a3] 255 /\
+  gen_shr_4_256 a0 a1 a2 a3 = shr [a0; a1; a2; a3] 256 /\
+  gen_shr_4_257 a0 a1 a2 a3 = shr [a0; a1; a2; a3] 257.
+Proof. exact gen_shr_4_eq. Qed.
+Theorem GenDerive_shr_4_spec : forall a0 a1 a2 a3,
+  wf [a0; a1; a2; a3] ->
+  (wf (gen_shr_4_0 a0 a1 a2 a3) /\ val (gen_shr_4_0 a0 a1 a2 a3) = val [a0; a1; a2; a3] / 2 ^ 0) /\
+  (wf (gen_shr_4_1 a0 a1 a2 a3) /\ val (gen_shr_4_1 a0 a1 a2 a3) = val [a0; a1; a2; a3] / 2 ^ 1) /\
+  (wf (gen_shr_4_63 a0 a1 a2 a3) /\ val (gen_shr_4_63 a0 a1 a2 a3) = val [a0; a1; a2; a3] / 2 ^ 63) /\
+  (wf (gen_shr_4_64 a0 a1 a2 a3) /\ val (gen_shr_4_64 a0 a1 a2 a3) = val [a0; a1; a2; a3] / 2 ^ 64) /\
+  (wf (gen_shr_4_65 a0 a1 a2 a3) /\ val (gen_shr_4_65 a0 a1 a2 a3) = val [a0; a1; a2; a3] / 2 ^ 65) /\
+  (wf (gen_shr_4_127 a0 a1 a2 a3) /\ val (gen_shr_4_127 a0 a1 a2 a3) = val [a0; a1; a2; a3] / 2 ^ 127) /\
+  (wf (gen_shr_4_128 a0 a1 a2 a3) /\ val (gen_shr_4_128 a0 a1 a2 a3) = val [a0; a1; a2; a3] / 2 ^ 128) /\
+  (wf (gen_shr_4_255 a0 a1 a2 a3) /\ val (gen_shr_4_255 a0 a1 a2 a3) = val [a0; a1; a2; a3] / 2 ^ 255) /\
+  (wf (gen_shr_4_256 a0 a1 a2 a3) /\ val (gen_shr_4_256 a0 a1 a2 a3) = val [a0; a1; a2; a3] / 2 ^ 256) /\
+  (wf (gen_shr_4_257 a0 a1 a2 a3) /\ val (gen_shr_4_257 a0 a1 a2 a3) = val [a0; a1; a2; a3] / 2 ^ 257).
+Proof. exact gen_shr_4_spec. Qed.
